@@ -113,12 +113,36 @@ def run(ctx):
         else:
             bad += [(off + i, a, s, x) for (i, a, s, x) in r["bad"]]
     if which == "c11":
+        # multivariate reparameterisation (MultivariateNormalREPARAM.prim_jvp_estimate) with scripted noise:
+        # the built-in full-covariance / mean-field families of vi.py on a conjugate target, judged by Model/CorrVi.v
+        import p_vi
+        fout = os.path.join(ctx.scratch, "ad_fam.json")
+        pr = subprocess.run([common.PY, os.path.join(common.HARNESS, "worker_vi.py"), fout, str(ctx.seed * 100 + 77),
+                             str(12 if ctx.tier == "quick" else 120), "fam"], env=env, capture_output=True, text=True, cwd=ctx.scratch)
+        if pr.returncode != 0 or not os.path.exists(fout):
+            worker_errs.append(pr.stderr[-1500:])
+        else:
+            fcs = json.load(open(fout))
+            vf = os.path.join(ctx.scratch, "cases_ad_fam.v")
+            open(vf, "w").write("From Coq Require Import QArith.\nFrom GV Require Import Model.Corr Model.CorrVi.\n"
+                                "Definition cases : list vicase := [\n" + ";\n".join("  " + p_vi.vicase(c) for c in fcs)
+                                + "].\nDefinition result := Eval vm_compute in vireport cases.\nPrint result.\n")
+            r = common.eval_cases_files([vf])[vf]
+            off = len(cases)
+            for c in fcs:
+                c["kind"] = "mv_reparam"
+            cases.extend(fcs)
+            if "error" in r:
+                coq_errs.append(r["error"])
+            else:
+                bad += [(off + i, a, s_, x) for (i, a, s_, x) in r["bad"]]
         nt = len({json.dumps([c["prog"], c["theta"]]) for c in cases if c["kind"] == "adev" and "err" not in c and len(c["prog"]["sites"]) >= 2}) \
             + len({json.dumps({k: v for k, v in c.items() if k not in ("p", "t")}, sort_keys=True) for c in cases if c["kind"] == "reparam" and c["L"] >= 2})
         hist = {"estimators": Counter(s["est"] for c in cases if c["kind"] == "adev" for s in c["prog"]["sites"]),
                 "sites": Counter(len(c["prog"]["sites"]) for c in cases if c["kind"] == "adev"),
                 "reparam": Counter(("uniform" if c["uniform"] else "normal") + f":L{c['L']}:mu{int(c['mu_vec'])}sg{int(c['sg_vec'])}" for c in cases if c["kind"] == "reparam"),
                 "consistency": Counter(c["prim"] for c in cases if c["kind"] == "consistency"),
+                "mv_reparam": sum(1 for c in cases if c["kind"] == "mv_reparam"),
                 "consistency_min_pvalues": sorted(c["pvalue"] for c in cases if c["kind"] == "consistency" and "pvalue" in c)[:4],
                 "errors": Counter(c.get("err", "")[:70] for c in cases if "err" in c)}
         rule = ("random expectation programs of 1-3 flip sites (enumeration, parallel enumeration, REINFORCE, measure-valued derivative; theta-dependent "
@@ -126,6 +150,7 @@ def run(ctx):
                 "sampled sites is scripted; per-outcome (primal, tangent) compared with the model's estimator, their probability-weighted mean with the exact "
                 "dual expectation; enumeration-only programs also under jit(seed(.)), grad_estimate and estimate; plus normal_reparam / uniform_reparam sites with scalar or "
                 "batched location and scale, scripted noise, followed by a lane-coupling continuation: primal and tangent compared with the pathwise dual; "
+                "plus multivariate_normal_reparam through the built-in full-covariance / mean-field families with scripted noise (x = mean + chol @ eps, value and directional derivative in exact rationals); "
                 "plus sampler/scorer consistency of every sampled primitive under seed (3000 vectorised draws, goodness of fit against the density the primitive is "
                 "scored with; fails below p = 1e-6); non-trivial = distinct flip program with >=2 sites or batched reparameterised site")
     else:
